@@ -150,7 +150,9 @@ def pred_C01(ctx, d, iobs, default_minv=False):
             fails.append('pixel %d is owned by structure %d but unlabelled' % (p, owner[p]))
     # lookups
     for p in range(ctx.n):
-        s = d.structure_at(tuple(int(x) for x in np.unravel_index(p, ctx.shape)))
+        coord = tuple(int(x) for x in np.unravel_index(p, ctx.shape))
+        # coordinates as a tuple, or (every third pixel) as a list / numpy integers
+        s = d.structure_at(coord if p % 3 else (list(coord) if p % 2 else tuple(np.int64(x) for x in coord)))
         got = -1 if s is None else int(s.idx)
         if got != lmap[p]:
             fails.append('structure_at(%d) gives %d but label map says %d' % (p, got, lmap[p]))
